@@ -14,6 +14,7 @@ from runner import Case
 import gen_toml as G
 import toml_text as T
 
+_laid_all = []
 PROP = "C03"
 COQ_PROPS = "Props/C03.v"
 COQ_PROPS_EXTRA = ["Props/C03exact.v", "Props/C03more.v", "Props/WFbackbone.v"]
@@ -91,6 +92,28 @@ def gen_cases(rng, tier):
     out.extend(header_order_family(rng, tier))
     for t in [b"a.b = 1\n\"a\" .c = 2\n", b"[a.b]\n[ a . c ]\n", b"a.b = 1\nc = 2\na.d = 3\n", b"[[a]]\n[[ a ]]\n", b"t = { a.b = 1, c = 2, a.d = 3 }\n"]:
         out.append(Case("rt", [t], {"kind": "general", "n": 2}))
+    # key paths that go THROUGH a table whose own header / dotted key was written with blanks or quotes: whether the print must be
+    # exact is decided by the theorem's side condition (`laid`), not by the generator
+    blanks = [b"", b" ", b"\t", b"  "]
+    segs = [b"a", b"b", b"c", b'"d e"', b"'f'"]
+    for _ in range(300 if tier == "quick" else 6000):
+        p1 = [rng.choice(segs) for _ in range(rng.randrange(1, 3))]
+        p2 = p1 + [rng.choice(segs) for _ in range(rng.randrange(1, 3))]
+
+        def hdr(path, aot):
+            inner = rng.choice(blanks) + (rng.choice(blanks) + b"." + rng.choice(blanks)).join(path) + rng.choice(blanks)
+            return (b"[[" if aot else b"[") + inner + (b"]]" if aot else b"]") + rng.choice([b"", b" # c"]) + b"\n"
+        aot = rng.random() < 0.25
+        first, second = (hdr(p1, aot), hdr(p2, False)) if rng.random() < 0.7 else (hdr(p2, False), hdr(p1, False))
+        body = lambda: b"".join(b"k%d = %d\n" % (j, j) for j in range(rng.randrange(0, 3)))
+        out.append(Case("rt", [first + body() + second + body()], {"kind": "laid", "n": 2, "family": "path-through-spelled-header"}))
+        # the same with dotted keys in one table and inside an inline table
+        k1 = (rng.choice(blanks) + b"." + rng.choice(blanks)).join(p1 + [b"x"])
+        k2 = (rng.choice(blanks) + b"." + rng.choice(blanks)).join(p1 + [b"y"])
+        out.append(Case("rt", [k1 + b" = 1\n" + k2 + b" = 2\n"], {"kind": "laid", "n": 2, "family": "dotted-through-spelled-prefix"}))
+        out.append(Case("rt", [b"t = { " + k1 + b" = 1, " + k2 + b" = 2 }\n"], {"kind": "laid", "n": 2, "family": "inline-dotted-through-spelled-prefix"}))
+    del _laid_all[:]
+    _laid_all.extend(c.args[0] for c in out if c.cmd == "rt" and c.meta.get("kind") != "exact")
     return out
 
 
@@ -133,6 +156,32 @@ def _field(line, name):
     return None
 
 
+# ---- the theorem's own side condition as the oracle's exactness class ------------------------------------------------------
+# C03_exact_total: utf8 s -> parse_document s = POk d -> laid_out' s (doc_root d) = true -> print = normalize s.  `laid_out'` is a
+# boolean function of the source and the MODEL's parse tree (Proofs/PrintBackDTop.v); the core driver evaluates it (command
+# `laid`).  Wherever it answers yes the implementation must print exactly the normalised input — not only on the documents the
+# generator knows to be spelled consistently (`kind == exact`).
+import common as _common
+_laid_cache = {}
+_laid_state = {"built": None}
+
+
+def _laid(text):
+    if text not in _laid_cache:
+        if _laid_state["built"] is None:
+            with _common.build_lock():
+                _laid_state["built"] = _common.build_driver("core").ok
+        todo = [t for t in dict.fromkeys(_laid_all + [text]) if t not in _laid_cache]
+        if _laid_state["built"]:
+            outs = _common.run_lines(_common.driver_bin("core"), [_common.case_line("laid", [t]) for t in todo])
+            for t, o in zip(todo, outs):
+                _laid_cache[t] = (o or "").strip()
+        else:
+            for t in todo:
+                _laid_cache[t] = "laid=unknown"
+    return _laid_cache[text]
+
+
 def oracle(case, line):
     if not line.startswith("ok "):
         return "valid document rejected"
@@ -148,6 +197,8 @@ def oracle(case, line):
     if case.meta.get("kind") == "exact":
         if printed != T.normalize(text):
             return "printed text differs from the normalised input"
+    elif case.cmd == "rt" and printed != T.normalize(text) and _laid(text) == "laid=yes":
+        return "printed text differs from the normalised input although the document meets the side condition of C03_exact (laid_out')"
     return None
 
 
